@@ -38,6 +38,8 @@ type vfGatherCfg struct {
 	MDNS      MulticastDNSMode
 	UDPMux    string // "", "specific", "unspecified"
 	WithSTUN  bool
+	TCPMux    bool // a TCP mux lends the listener for passive ICE-TCP host candidates (one per eligible address and enabled TCP family)
+	UDPMuxBad bool // the UDP mux was closed before gathering: it lends nothing, and that must not cost the other candidates
 }
 
 var vfC18AddrPool = []struct { //nolint:gochecknoglobals
@@ -122,6 +124,18 @@ func vfGenGatherCfg(rng interface{ IntN(int) int }) *vfGatherCfg {
 			c.WithSTUN = true
 		}
 	}
+	tcpOn := len(c.NetTypes) == 0
+	for _, nt := range c.NetTypes {
+		if nt.IsTCP() {
+			tcpOn = true
+		}
+	}
+	if tcpOn && rng.IntN(2) == 0 {
+		c.TCPMux = true
+	}
+	if c.UDPMux != "" && rng.IntN(3) == 0 {
+		c.UDPMuxBad = true
+	}
 
 	return c
 }
@@ -140,7 +154,7 @@ func (c *vfGatherCfg) json() map[string]any {
 	}
 
 	return map[string]any{"interfaces": ifs, "candidate_types": cts, "network_types": nts, "network_types_nil": c.NetTypes == nil, "port_min": c.PortMin, "port_max": c.PortMax,
-		"iface_deny": vfSortedKeys(c.IfaceDeny), "ip_deny": vfSortedKeys(c.IPDeny), "include_loopback": c.Loopback, "mdns_mode": int(c.MDNS), "udp_mux": c.UDPMux}
+		"iface_deny": vfSortedKeys(c.IfaceDeny), "ip_deny": vfSortedKeys(c.IPDeny), "include_loopback": c.Loopback, "mdns_mode": int(c.MDNS), "udp_mux": c.UDPMux, "tcp_mux": c.TCPMux, "udp_mux_closed": c.UDPMuxBad}
 }
 
 // eligibleAddrs is the reference: interface addresses on which the agent may open sockets itself.
@@ -228,6 +242,12 @@ func (c *vfGatherCfg) build(sw *vfSwitch) (*Agent, *UDPMuxDefault, string, error
 		mux = NewUDPMuxDefault(UDPMuxParams{UDPConn: conn, Logger: vfQuietLogger().NewLogger("ice"), Net: mn})
 		cfg.UDPMux = mux
 		muxAddr = la.String()
+		if c.UDPMuxBad {
+			_ = mux.Close()
+		}
+	}
+	if c.TCPMux {
+		cfg.TCPMux = &vfFakeTCPMux{addr: &net.TCPAddr{IP: net.IPv4zero, Port: 9443}}
 	}
 	a, err := NewAgent(cfg)
 
@@ -416,7 +436,7 @@ func vfC18Run(e *vfEnv, r *vfResult, idx int) { //nolint:cyclop,maintidx
 			if !eligSet[ip] {
 				r.violation("host-on-excluded-address", "published "+desc+" on an address excluded by interface state / filters / loopback setting / family", wit)
 			}
-			if ranged && (cd.Port() < portLo || cd.Port() > portHi) {
+			if ranged && !(c.TCPMux && cd.NetworkType().IsTCP()) && (cd.Port() < portLo || cd.Port() > portHi) { // (a TCP mux candidate sits on the mux's port)
 				r.violation("host-port-out-of-range", fmt.Sprintf("published %s outside the configured port range %d-%d", desc, portLo, portHi), wit)
 			}
 			hostSeen[cd.NetworkType().NetworkShort()+"/"+ip.String()] = true
@@ -448,6 +468,25 @@ func vfC18Run(e *vfEnv, r *vfResult, idx int) { //nolint:cyclop,maintidx
 	// ---- completeness: every eligible address yields a UDP host candidate (the agent's own listener), unless a
 	// mux lends the socket, mDNS hides the addresses, or the port range is smaller than the number of addresses
 	// on one IP (cannot happen: ports are per address)
+	// the same for passive ICE-TCP host candidates when a TCP mux lends the listener - whatever the UDP side does
+	if typeEnabled[CandidateTypeHost] && c.TCPMux && effMDNS != MulticastDNSModeQueryAndGather {
+		for _, ipa := range elig {
+			if ipa.Is6() && ipa.IsLinkLocalUnicast() {
+				continue
+			}
+			fam := NetworkTypeTCP4
+			if ipa.Is6() {
+				fam = NetworkTypeTCP6
+			}
+			if !ntEnabled[fam] {
+				continue
+			}
+			r.count("c18_tcp_mux_addresses_checked", 1)
+			if !hostSeen["tcp/"+ipa.String()] {
+				r.violation("tcp-host-candidate-missing", fmt.Sprintf("eligible address %s (%s enabled, TCP mux configured, UDP mux: %q closed=%v) has no passive TCP host candidate", ipa, fam, c.UDPMux, c.UDPMuxBad), wit)
+			}
+		}
+	}
 	rangeOK := !ranged || portHi-portLo >= 64 // with a tiny range host and srflx sockets compete for ports: completeness not judged
 	if typeEnabled[CandidateTypeHost] && udpEnabled && c.UDPMux == "" && effMDNS != MulticastDNSModeQueryAndGather && rangeOK {
 		for _, ipa := range elig {
